@@ -165,6 +165,13 @@ def r1_best(repo, report):
             edits.append(f"line {n.lineno}: {src(n)[:50]}")
     report.ob("C09.R1", "AdapterCutter adapter list is the list it was given", not edits, facts={"edits": edits}, loc=repo.loc(ac_init), expected=f"'{pname}' is only read in AdapterCutter.__init__",
               why=(f"{edits[0]}: adapters that were given are not searched, or in another order - an adapter given twice with different parameters (ADAPTER;e=0 and ADAPTER;e=0.2) is a different adapter" if edits else ""))
+    # the same for the number of rounds and the action: what --times / --action say is what is stored
+    for pn in [x for x in ap[2:] if x in ("times", "action")]:
+        rebound = [f"line {n.lineno}" for n in ast.walk(ac_init) if isinstance(n, ast.Name) and n.id == pn and isinstance(n.ctx, (ast.Store, ast.Del))]
+        stores = [src(n.value) for n in ast.walk(ac_init) if isinstance(n, (ast.Assign, ast.AnnAssign)) and n.value is not None and any(chain(t) == f"self.{pn}" for t in (n.targets if isinstance(n, ast.Assign) else [n.target]))]
+        okp = not rebound and stores == [pn]
+        report.ob("C09.R2" if pn == "times" else "C09.R1", f"AdapterCutter stores the given '{pn}'", okp, facts={"rebound": rebound, "stores": stores}, loc=repo.loc(ac_init), expected=f"self.{pn} = {pn}, the parameter not reassigned",
+                  why=("" if okp else f"'{pn}' is changed before it is stored ({(rebound or stores)[0]}): " + ("the number of rounds is not the one asked for - an anchored adapter can match again after the first copy was removed (-g ^ACGT -n 2 on ACGTACGT...)" if pn == "times" else "another action than the requested one is applied")))
     report.ob("C09.R1", "AdapterCutter adapter list", ok, facts=tbl, expected={"index=False": "MultipleAdapters(adapters)", "index=True": "MultipleAdapters(self._regroup_into_indexed_adapters(adapters))"}, loc=repo.loc(ifs[0]))
     c4, rg = repo.need_method("AdapterCutter", "_regroup_into_indexed_adapters")
     rp = params(rg)
@@ -431,7 +438,23 @@ def r5_defaults(repo, report):
                   expected="front_required / back_required = <that side's parameters>.pop('required', <documented default>)",
                   why=f"front_required={str(ta.get('front_required'))[:90]}, back_required={str(ta.get('back_required'))[:90]}: an explicit ;optional / ;required in the specification no longer decides alone")
         return
-    mism, n, _ = check_table(rows, roles, exp, outcome, constraint=constraint, ignore_atoms=[f"isnone:{ps[2].upper()}"] + sorted(set(rejected_keys)))
+    # the table is evaluated for each of the three values a placement restriction can have (None, 'anchored',
+    # 'noninternal'), so that the code may ask about the restriction in any way it likes (is not None, ==, in (...))
+    mism, n = [], 0
+    roles2 = {k: v for k, v in roles.items() if k in ("anywhere", "front")}
+    for fr in (None, "anchored", "noninternal"):
+        for br in (None, "anchored", "noninternal"):
+            env2 = dict(env)
+            env2[f"{FS}.restriction"] = Const(fr)
+            env2[f"{BS}.restriction"] = Const(br)
+            rows2 = explore(repo, strip_docstring(fn.body), env2, call_hook=hook, inline=False)
+            rows2 = [r for r in rows2 if not any(r.valuation.get(k) is True for k in rejected_keys)]
+            m2, n2, _ = check_table(rows2, roles2, lambda rv, fr=fr, br=br: exp(dict(rv, f_restr=fr is not None, b_restr=br is not None)), outcome, constraint=constraint,
+                                    ignore_atoms=[f"isnone:{ps[2].upper()}"] + sorted(set(rejected_keys)))
+            for m_ in m2:
+                m_["inputs"] = dict(m_["inputs"], front_restriction=fr, back_restriction=br) if isinstance(m_["inputs"], dict) else f"{m_['inputs']} front restriction={fr} back restriction={br}"
+            mism += m2
+            n += n2
     report.ob("C09.R5", "required/optional defaults", not mism, facts={"rows": len(rows), "mismatches": mism[:4]},
               expected="-g: (required, required); -a: (front restricted?, back restricted?); an explicit 'required' entry of that side's parameters overrides (pop with the default); -b raises", loc=repo.loc(fn), cases=n,
               why=(f"for {mism[0]['inputs']}: code {mism[0]['code']}, expected {mism[0]['expected']}" if mism else ""))
